@@ -134,27 +134,44 @@ func runC10(c *core.Ctx) {
 					}
 				}
 			}
-			hand := func(ins ssa.Instruction) int {
-				switch x := ins.(type) {
-				case *ssa.Call:
-					if x.Call.Value == ssa.Value(deliver) {
-						return 1
-					}
-					for _, a := range x.Call.Args {
-						if a == ssa.Value(deliver) {
-							if g := core.Callee(&x.Call); g != nil && core.FuncName(g) == "fpgo.HandlerDef.Post" {
-								return 1
+			// helpers the closure is handed to that run or post their argument exactly once: (function, parameter)
+			type handSite struct {
+				fn *ssa.Function
+				v  ssa.Value
+			}
+			sites := []handSite{{deliver.Parent(), deliver}}
+			var handWeight func(v ssa.Value, depth int) func(ssa.Instruction) int
+			handWeight = func(v ssa.Value, depth int) func(ssa.Instruction) int {
+				return func(ins ssa.Instruction) int {
+					switch x := ins.(type) {
+					case *ssa.Call:
+						if x.Call.Value == v {
+							return 1
+						}
+						for ai, a := range x.Call.Args {
+							if a == v {
+								g := core.Callee(&x.Call)
+								if g != nil && core.FuncName(g) == "fpgo.HandlerDef.Post" {
+									return 1
+								}
+								if depth < 2 && g != nil && !x.Call.IsInvoke() && p.InRepo(g) && len(g.Blocks) > 0 && ai < len(g.Params) {
+									if mn, mx := core.PathCount(g, handWeight(g.Params[ai], depth+1), nil); mn == 1 && mx == 1 {
+										sites = append(sites, handSite{g, g.Params[ai]})
+										return 1
+									}
+								}
+								return 100 // handed to something else
 							}
-							return 100 // handed to something else
+						}
+					case *ssa.Go:
+						if x.Call.Value == v {
+							return 100
 						}
 					}
-				case *ssa.Go:
-					if x.Call.Value == ssa.Value(deliver) {
-						return 100
-					}
+					return 0
 				}
-				return 0
 			}
+			hand := handWeight(deliver, 0)
 			var min, max int
 			if len(dstack) == 0 {
 				min, max = core.PathCountIter(deliver.Block(), deliver, hand, nil)
@@ -187,36 +204,44 @@ func runC10(c *core.Ctx) {
 			// the hand-off respects the configured handler: Post only where it is known non-nil, the direct call only
 			// where it is known nil
 			handOK := true
-			core.Instrs(deliver.Parent(), func(ins ssa.Instruction) {
-				call, ok := ins.(*ssa.Call)
-				if !ok {
-					return
+			seenSite := map[handSite]bool{}
+			for si := 0; si < len(sites); si++ {
+				site := sites[si]
+				if seenSite[site] {
+					continue
 				}
-				if call.Call.Value == ssa.Value(deliver) {
-					// direct call: if a Post alternative exists it must be on the handler == nil edge
-					for _, m := range core.EdgeCmps(ins.Block()) {
-						if core.FieldKey(m.X) == "PublisherDef.subOn" && core.IsNilConst(m.Y) && m.Op == token.NEQ {
-							handOK = false
-						}
+				seenSite[site] = true
+				core.Instrs(site.fn, func(ins ssa.Instruction) {
+					call, ok := ins.(*ssa.Call)
+					if !ok {
+						return
 					}
-					return
-				}
-				for _, a := range call.Call.Args {
-					if a == ssa.Value(deliver) {
-						if g := core.Callee(&call.Call); g != nil && core.FuncName(g) == "fpgo.HandlerDef.Post" {
-							nonNil := false
-							for _, m := range core.EdgeCmps(ins.Block()) {
-								if m.Op == token.NEQ && core.IsNilConst(m.Y) && core.Path(m.X) == core.Path(call.Call.Args[0]) {
-									nonNil = true
-								}
-							}
-							if !nonNil {
+					if call.Call.Value == site.v {
+						// direct call: if a Post alternative exists it must be on the handler == nil edge
+						for _, m := range core.EdgeCmps(ins.Block()) {
+							if core.FieldKey(m.X) == "PublisherDef.subOn" && core.IsNilConst(m.Y) && m.Op == token.NEQ {
 								handOK = false
 							}
 						}
+						return
 					}
-				}
-			})
+					for _, a := range call.Call.Args {
+						if a == site.v {
+							if g := core.Callee(&call.Call); g != nil && core.FuncName(g) == "fpgo.HandlerDef.Post" {
+								nonNil := false
+								for _, m := range core.EdgeCmps(ins.Block()) {
+									if m.Op == token.NEQ && core.IsNilConst(m.Y) && core.Path(m.X) == core.Path(call.Call.Args[0]) {
+										nonNil = true
+									}
+								}
+								if !nonNil {
+									handOK = false
+								}
+							}
+						}
+					}
+				})
+			}
 			if !handOK {
 				guarded = false
 			}
